@@ -270,11 +270,19 @@ func (fc *FnCtx) sortSlice(st *State, c *ssa.CallCommon, args []Val, in ssa.Inst
 	atOldPerm := fc.TE.At(oldD, off, app(SInt, perm, ip))
 	atNewInv := fc.TE.At(newD, off, app(SInt, inv, ip))
 	// forward: every element of the result is an element of the input (triggered by reading the result)
-	fc.S.Assume(Implies(st.PC, Term{fmt.Sprintf("(forall ((i!p Int)) (! (=> %s (and %s (= %s %s) (= (%s (%s i!p)) i!p))) :pattern (%s) :pattern ((%s i!p))))",
-		rng("i!p"), rng("("+perm+" i!p)"), atNew.S, atOldPerm.S, inv, perm, atNew.S, perm), SBool}), "sort.Slice: result is a permutation (forward map)")
+	// perm is a bijection of the integers that maps the index range onto itself (the identity
+	// outside it); stated without a range guard so that inv(perm(i)) and i are one term class at
+	// once (with the guard, an index whose range is not yet decided starts an endless chain of
+	// instances perm(i), inv(perm(i)), perm(inv(perm(i))), ...)
+	fc.S.Assume(Term{fmt.Sprintf("(forall ((i!p Int)) (! (and (= (%s (%s i!p)) i!p) (= %s %s)) :pattern ((%s i!p)) :qid sort.perm))",
+		inv, perm, rng("i!p"), rng("("+perm+" i!p)"), perm), SBool}, "sort.Slice: perm is a bijection preserving the index range")
+	fc.S.Assume(Term{fmt.Sprintf("(forall ((i!p Int)) (! (and (= (%s (%s i!p)) i!p) (= %s %s)) :pattern ((%s i!p)) :qid sort.inv))",
+		perm, inv, rng("i!p"), rng("("+inv+" i!p)"), inv), SBool}, "sort.Slice: inv is its inverse")
+	fc.S.Assume(Implies(st.PC, Term{fmt.Sprintf("(forall ((i!p Int)) (! (=> %s (= %s %s)) :pattern (%s) :qid sort.fwd))",
+		rng("i!p"), atNew.S, atOldPerm.S, atNew.S), SBool}), "sort.Slice: result is a permutation (forward map)")
 	// backward: every element of the input is an element of the result (triggered by reading the input)
-	fc.S.Assume(Implies(st.PC, Term{fmt.Sprintf("(forall ((i!p Int)) (! (=> %s (and %s (= %s %s) (= (%s (%s i!p)) i!p))) :pattern (%s) :pattern ((%s i!p))))",
-		rng("i!p"), rng("("+inv+" i!p)"), atNewInv.S, atOld.S, perm, inv, atOld.S, inv), SBool}), "sort.Slice: result is a permutation (inverse map)")
+	fc.S.Assume(Implies(st.PC, Term{fmt.Sprintf("(forall ((i!p Int)) (! (=> %s (= %s %s)) :pattern (%s) :qid sort.bwd))",
+		rng("i!p"), atNewInv.S, atOld.S, atOld.S), SBool}), "sort.Slice: result is a permutation (inverse map)")
 	fc.S.Assume(Implies(st.PC, Term{fmt.Sprintf("(forall ((j!p Int)) (! (=> (or (< j!p %s) (>= j!p (+ %s %s))) (= (select %s j!p) (select %s j!p))) :pattern ((select %s j!p))))",
 		off.S, off.S, ln.S, newD.S, oldD.S, newD.S), SBool}), "sort.Slice: elements outside the slice are untouched")
 	// an empty slice is not written at all
@@ -298,6 +306,9 @@ func (fc *FnCtx) sortSlice(st *State, c *ssa.CallCommon, args []Val, in ssa.Inst
 		fc.unsup("less function of sort.Slice does not return")
 	}
 	fc.S.Assume(Implies(st.PC, Term{fmt.Sprintf("(forall ((i!s Int) (j!s Int)) (=> (and (<= 0 i!s) (< i!s j!s) (< j!s %s)) (not %s)))", ln.S, res[0].T.S), SBool}), "sort.Slice: sorted with respect to less")
+	// when a loop follows, its invariants carry what is needed of the order: the
+	// assumption is dropped after the next loop head (never, if there is none)
+	fc.top.scoped = append(fc.top.scoped, len(fc.S.Lines)-1)
 	fc.notes.Assumed["sort.Slice: permutation in place, sorted w.r.t. the less closure evaluated symbolically; index safety inside less assumed (called with valid indices)"] = true
 	return Val{}
 }
